@@ -248,7 +248,11 @@ class Real:
                 ok = "ok" if (bc == wshape and pre.shape[0] == B and post.shape[0] == B) else shp_s(bc)
             except RuntimeError:
                 ok = "incompatible"
-            return (m, f"wshape={shp_s(wshape)} bc={ok}")
+            if ok == "ok":
+                outer = ten_s((post * pre).sum(-1))     # what the trainers compute from the two views
+            else:
+                outer = "-"
+            return (m, f"wshape={shp_s(wshape)} bc={ok} outer={outer}")
         raise AssertionError(tok)
 
 
